@@ -77,7 +77,32 @@ def run(ctx, rep):
                     rep.undecided('R3-flag-origin', key, 'flag argument has origin %s' % oo, f.where(bi))
         if cfg == 'optimism':
             check_optimism_register(fx, rep)
+        if cfg == 'default':
+            check_fresh_callers(fx, rep)
     rep.floor('flag-call-sites', n_sites, 9)
+
+
+def check_fresh_callers(fx, rep):
+    """R5: the fresh-handler constructors put the reward back to its default.  They may be used where
+    no handler exists yet, never from a method of an existing handler (a reconfiguration would
+    silently re-enable a disabled reward)."""
+    n = 0
+    for fresh in FRESH:
+        if not fresh.startswith('revm::handler::Handler::'):
+            continue
+        for f in fx.callers_of(fresh):
+            if not f.crate or f.crate.endswith('-test') or '::test' in f.nq:
+                continue
+            n += 1
+            rep.fn(f)
+            has_handler = [i for i in range(1, f.argc + 1) if 'handler::Handler<' in (f.local_ty(i) or '') or 'evm::Evm<' in (f.local_ty(i) or '')]
+            key = '%s->%s' % (short_fn(f.nq), fresh.split('::')[-1])
+            if has_handler:
+                rep.violation('R5-fresh-constructor-callers', key,
+                              '%s replaces an existing handler by %s, which builds the default handler (reward enabled): a disabled beneficiary reward does not survive this reconfiguration' % (short_fn(f.nq), fresh.split('::', 2)[-1]), f.where())
+            else:
+                rep.ok('R5-fresh-constructor-callers', key, 'no existing handler in scope')
+    rep.floor('R5-fresh-callers', n, 1)
 
 
 def short_fn(nq):
